@@ -4,8 +4,11 @@ CONSTANTS Thr = {t1,t2,t3}
  ProcScope = "global"
  DtorLocked = FALSE
  UsesPlanner = FALSE
+ TableScope = "proc"
+ TempScope = "call"
  DtorFrees = "all"
 INVARIANT Deterministic
+INVARIANT TablesAlive
 INVARIANT ScratchPrivate
 INVARIANT PlannerExclusive
 PROPERTY AllDone
